@@ -1366,9 +1366,14 @@ class Engine(object):
             if lit:
                 parts.append(z3.StringVal(lit))
             if field is not None:
-                if spec or conv or field not in kwargs or not isinstance(kwargs[field], VStr):
+                if spec or conv or field not in kwargs:
                     raise Unsupported("format field %r" % field)
-                parts.append(kwargs[field].z)
+                if isinstance(kwargs[field], VStr):
+                    parts.append(kwargs[field].z)
+                else:
+                    # str() of a value the engine does not interpret: some string
+                    self.abstracted.add("format field {%s}: text of an uninterpreted value (an arbitrary string)" % field)
+                    parts.append(fresh("str_of_" + field, S))
         if not parts:
             return VStr(EMPTY)
         return VStr(z3.Concat(*parts) if len(parts) > 1 else parts[0])
@@ -1537,6 +1542,9 @@ class Engine(object):
         if name == "appended":
             o = lst(args[0])
             return st.alloc(self.list_append(o, args[1], st))
+        if name in ("startswith", "endswith", "contains", "strip", "isspace", "substr"):
+            # an operand the engine does not know to be a string: an arbitrary string (only sound under a premise that rules it out)
+            args = [a if not isinstance(a, (VOpaque, VNone)) else VStr(fresh("unknown_str", S)) for a in args]
         if name == "strip":
             return VStr(py_strip(args[0].z))
         if name == "isspace":
